@@ -114,17 +114,43 @@ def id_correlation(ctx) -> None:
     ctx.check(ret is not None and core.src(ret.value) == core.src(reg[0].value), 'C16.id', ap, 'the caller receives the very future that was registered', ret or ap.node, key='apply:return')
     ctx.check(core.src(task.args[1]) == 'entry', 'C16.id', ap, "the task carries the caller's entry", put[0], key='apply:entry')
     run = prog.func(f'{PRED}:Executor.run')
-    uses = [n for n in core.walk_local(run.node) if isinstance(n, ast.Subscript) and core.src(n.value) == 'self._pending']
-    ctx.floor('C16.run-uses', len(uses), 3)
-    ctx.check(all(core.src(u.slice) == 'result.id' for u in uses), 'C16.id', run, 'results are correlated by result.id only', run.node, key='run:key')
-    g2 = cfg.CFG(run.node)
-    dels = [s for s in g2.statements() if isinstance(s, ast.Delete)]
-    sets = [s for s in g2.statements() if any(isinstance(c.func, ast.Attribute) and c.func.attr in ('set_result', 'set_exception') for c in cfg.header_calls(s))]
-    ctx.check(len(dels) == 1 and len(sets) == 2 and g2.must_pass(cfg.ENTRY, dels[0], via=sets, normal_only=True), 'C16.id', run, 'a pending future is resolved exactly once and then removed', run.node, key='run:resolve-then-delete')
-    for s in sets:
-        c = next(c for c in cfg.header_calls(s) if isinstance(c.func, ast.Attribute) and c.func.attr in ('set_result', 'set_exception'))
-        want = 'result.outcome' if c.func.attr == 'set_result' else 'result.exception'
-        ctx.check(core.src(c.args[0]) == want, 'C16.id', run, f'{c.func.attr} receives {want}', s)
+    keys = [core.src(n.slice) for n in core.walk_local(run.node) if isinstance(n, ast.Subscript) and core.src(n.value) == 'self._pending']
+    keys += [core.src(c.args[0]) for c in core.calls_in(run.node) if isinstance(c.func, ast.Attribute) and c.func.attr in ('pop', 'get') and core.src(c.func.value) == 'self._pending' and c.args]
+    ctx.floor('C16.run-uses', len(keys), 1)
+    ctx.check(bool(keys) and all(k == 'result.id' for k in keys), 'C16.id', run, f'results are correlated by result.id only ({keys})', run.node, key='run:key')
+    # per received result: exactly one resolution of its future and exactly one removal, on every path of the iteration
+    rloops = [s for s in run.body if isinstance(s, ast.While)]
+    if len(rloops) != 1:
+        raise core.AnalysisError('Executor.run: single loop not found')
+    rloop = rloops[0]
+    ftry = next((s for s in rloop.body if isinstance(s, ast.Try) and any('_results.get' in core.src(b) for b in s.body)), None)
+    if ftry is None:
+        raise core.AnalysisError('Executor.run: result fetch idiom not found')
+    rest = rloop.body[rloop.body.index(ftry) + 1:]
+    pseudo = ast.FunctionDef(name='iteration', args=ast.arguments(posonlyargs=[], args=[], kwonlyargs=[], kw_defaults=[], defaults=[]), body=rest, decorator_list=[], lineno=rest[0].lineno if rest else rloop.lineno, col_offset=0)
+    g2 = cfg.CFG(pseudo)
+
+    def resolves(st):
+        return sum(1 for c in cfg.header_calls(st) if isinstance(c.func, ast.Attribute) and c.func.attr in ('set_result', 'set_exception'))
+
+    def removes(st):
+        n = sum(1 for c in cfg.header_calls(st) if isinstance(c.func, ast.Attribute) and c.func.attr == 'pop' and core.src(c.func.value) == 'self._pending')
+        if isinstance(st, ast.Delete) and any(isinstance(tg, ast.Subscript) and core.src(tg.value) == 'self._pending' for tg in st.targets):
+            n += 1
+        return n
+
+    rc = cfg.count_events(g2, cfg.ENTRY, cfg.EXIT, resolves)
+    rm = cfg.count_events(g2, cfg.ENTRY, cfg.EXIT, removes)
+    ctx.check(rc == (1, 1), 'R-EXACTLY-ONE', run, f'a received result resolves its future exactly once per iteration: (min, max) = {rc} (resolving twice raises InvalidStateError in the executor thread and strands every other in-flight request)', rloop, key='run:resolve-once')
+    ctx.check(rm == (1, 1), 'R-EXACTLY-ONE', run, f'and its pending entry is removed exactly once: (min, max) = {rm}', rloop, key='run:remove-once')
+    for st in g2.statements():
+        for c in cfg.header_calls(st):
+            if isinstance(c.func, ast.Attribute) and c.func.attr in ('set_result', 'set_exception'):
+                want = 'result.outcome' if c.func.attr == 'set_result' else 'result.exception'
+                ctx.check(core.src(c.args[0]) == want, 'C16.id', run, f'{c.func.attr} receives {want}', st)
+                if c.func.attr == 'set_exception':
+                    gs = [core.src(t) for t, pol in cfg.guards(c, run.node, siblings=False) if pol]
+                    ctx.check(any(g in ('result.exception', 'result.exception is not None') for g in gs), 'C16.id', run, 'the exception slot decides between failure and success', st, key='run:exception-guard')
     # who constructs Result
     n = 0
     for fn in prog.functions([m for m in prog.modules if m.startswith('forml.runtime')]):
